@@ -530,3 +530,90 @@ func genericOfJSON(b []byte) any {
 	}
 	return fix(g2)
 }
+
+// layoutJSON re-serialises a JSON document with another LAYOUT of the same tokens: style "spaced" puts a space before
+// and after every ':' and ',', breaks lines with CR LF and indents with tabs (what pretty-printers of other
+// ecosystems emit); style "key-escaped" writes the first character of every object key as a \u00XX escape.  The value
+// is the same JSON value.
+func layoutJSON(b []byte, style string) []byte {
+	dec := json.NewDecoder(bytes.NewReader(b))
+	dec.UseNumber()
+	var out bytes.Buffer
+	var write func(depth int) bool
+	indent := func(d int) {
+		if style == "spaced" {
+			out.WriteString("\r\n" + strings.Repeat("\t", d))
+		}
+	}
+	writeKey := func(k string) {
+		kb, _ := json.Marshal(k)
+		if style == "key-escaped" && len(k) > 0 && k[0] < 0x80 && k[0] != '"' && k[0] != '\\' {
+			fmt.Fprintf(&out, `"\u%04x%s`, k[0], string(kb[2:]))
+		} else {
+			out.Write(kb)
+		}
+	}
+	write = func(depth int) bool {
+		tok, err := dec.Token()
+		if err != nil {
+			return false
+		}
+		switch t := tok.(type) {
+		case json.Delim:
+			switch t {
+			case '{':
+				out.WriteByte('{')
+				first := true
+				for dec.More() {
+					if !first {
+						if style == "spaced" {
+							out.WriteString(" ,")
+						} else {
+							out.WriteByte(',')
+						}
+					}
+					first = false
+					indent(depth + 1)
+					kt, _ := dec.Token()
+					writeKey(kt.(string))
+					if style == "spaced" {
+						out.WriteString(" : ")
+					} else {
+						out.WriteByte(':')
+					}
+					write(depth + 1)
+				}
+				_, _ = dec.Token()
+				indent(depth)
+				out.WriteByte('}')
+			case '[':
+				out.WriteByte('[')
+				first := true
+				for dec.More() {
+					if !first {
+						if style == "spaced" {
+							out.WriteString(" , ")
+						} else {
+							out.WriteByte(',')
+						}
+					}
+					first = false
+					write(depth + 1)
+				}
+				_, _ = dec.Token()
+				out.WriteByte(']')
+			}
+		case json.Number:
+			out.WriteString(t.String())
+		default:
+			vb, _ := json.Marshal(t)
+			out.Write(vb)
+		}
+		return true
+	}
+	write(0)
+	if style == "spaced" {
+		out.WriteString("\r\n")
+	}
+	return out.Bytes()
+}
